@@ -186,7 +186,8 @@ class MiniShard(CMCReadWrite):
                 << self.shard_spec.preshift_bits
             ) & cmc
 
-        chunk_to_store = self.shard_spec.data_encoder(buf)
+        # encoders may hand over any bytes-like object (e.g. a bytearray)
+        chunk_to_store = bytes(self.shard_spec.data_encoder(buf))
         if self.can_be_appended(cmc):
             self.append(chunk_to_store, cmc)
             self.flush_buffer()
